@@ -25,7 +25,16 @@ use sha2::{Digest, Sha256};
 
 pub mod tape;
 
-pub const VERIF_ROOT: &str = "/verif";
+/// Root of the verification tree (evidence/, out/, replays/, known_findings.json).
+/// `TPV_ROOT` overrides it for scratch runs against a mutated copy of the repository.
+pub fn verif_root() -> PathBuf {
+    PathBuf::from(std::env::var("TPV_ROOT").unwrap_or_else(|_| "/verif".to_string()))
+}
+
+/// Root of the repository under test (`TPV_REPO` overrides it for scratch runs).
+pub fn repo_root() -> PathBuf {
+    PathBuf::from(std::env::var("TPV_REPO").unwrap_or_else(|_| "/repo".to_string()))
+}
 
 #[derive(Clone, Copy, Debug, PartialEq, Eq, Serialize, Deserialize)]
 pub enum Tier {
@@ -159,14 +168,31 @@ pub struct KnownFinding {
 }
 
 pub fn load_known_findings() -> Vec<KnownFinding> {
-    let path = Path::new(VERIF_ROOT).join("known_findings.json");
-    match std::fs::read_to_string(&path) {
+    let path = verif_root().join("known_findings.json");
+    let mut all: Vec<KnownFinding> = match std::fs::read_to_string(&path) {
         Ok(text) => serde_json::from_str(&text).unwrap_or_else(|e| {
             eprintln!("known_findings.json does not parse: {e}");
             std::process::exit(2);
         }),
         Err(_) => Vec::new(),
+    };
+    // per-property fragments (merged into known_findings.json before the final commit)
+    if let Ok(rd) = std::fs::read_dir(verif_root().join("known_findings.d")) {
+        let mut paths: Vec<_> = rd.flatten().map(|e| e.path()).collect();
+        paths.sort();
+        for p in paths {
+            if let Ok(text) = std::fs::read_to_string(&p) {
+                match serde_json::from_str::<Vec<KnownFinding>>(&text) {
+                    Ok(v) => all.extend(v),
+                    Err(e) => {
+                        eprintln!("{} does not parse: {e}", p.display());
+                        std::process::exit(2);
+                    }
+                }
+            }
+        }
     }
+    all
 }
 
 #[derive(Clone, Debug, Serialize, Deserialize)]
@@ -235,7 +261,7 @@ pub fn catch<R>(f: impl FnOnce() -> R) -> Result<R, String> {
 
 impl RunCtx {
     pub fn new(id: &str, tier: Tier, seed: u64, worker: usize, nworkers: usize) -> RunCtx {
-        let out_dir = Path::new(VERIF_ROOT).join("out").join(id);
+        let out_dir = verif_root().join("out").join(id);
         let _ = std::fs::create_dir_all(&out_dir);
         RunCtx {
             id: id.to_string(),
@@ -301,7 +327,7 @@ impl RunCtx {
     }
 
     fn replay_dir(&self) -> PathBuf {
-        Path::new(VERIF_ROOT).join("replays").join(&self.id)
+        verif_root().join("replays").join(&self.id)
     }
 
     fn replay_files_for(&self, search: &str) -> Vec<(PathBuf, ReplayFile)> {
@@ -551,7 +577,7 @@ pub struct PropertyInfo {
 }
 
 pub fn write_evidence(info: &PropertyInfo, tier: Tier, seed: u64, stats: &Stats, wall_s: f64) {
-    let dir = Path::new(VERIF_ROOT).join("evidence");
+    let dir = verif_root().join("evidence");
     let _ = std::fs::create_dir_all(&dir);
     let mut labels = serde_json::Map::new();
     for (k, v) in &stats.labels {
@@ -593,7 +619,7 @@ pub fn run_check(info: &PropertyInfo, tier: Tier, seed: u64) -> i32 {
         Tier::Thorough => info.workers_thorough,
     }
     .max(1);
-    let out_dir = Path::new(VERIF_ROOT).join("out").join(info.id);
+    let out_dir = verif_root().join("out").join(info.id);
     let _ = std::fs::remove_dir_all(&out_dir);
     let _ = std::fs::create_dir_all(&out_dir);
     let exe = std::env::current_exe().expect("current_exe");
@@ -756,7 +782,7 @@ pub fn run_worker(info: &PropertyInfo, tier: Tier, seed: u64, worker: usize, nwo
         .expect("spawn");
     match handle.join() {
         Ok(stats) => {
-            let out = Path::new(VERIF_ROOT)
+            let out = verif_root()
                 .join("out")
                 .join(info.id)
                 .join(format!("worker-{worker}.json"));
